@@ -215,8 +215,17 @@ def decide(pid: str, tier: str, unit_results: Dict[str, dict], units: List[Unit]
             if st in (DISCHARGED, BOUNDED_PASS):
                 continue
             if st == UNKNOWN:
-                v.undecided.append(o)
-                continue
+                # undecided by the solver: never a violation by itself.  If the contract supplies a native
+                # reproduction recipe (bounded search on the real code) and it finds a failing input, the
+                # obligation is refuted by that input; otherwise it stays undecided.
+                if o.get("replay") and "native" not in o:
+                    o["native"] = run_replay_recipe(o["replay"])
+                if (o.get("native") or {}).get("reproduced"):
+                    o["status"] = st = REFUTED
+                    o["by"] = "native replay after solver unknown"
+                else:
+                    v.undecided.append(o)
+                    continue
             # refuted / bounded-fail
             if st == REFUTED and o.get("replay") and "native" not in o:
                 o["native"] = run_replay_recipe(o["replay"])
